@@ -112,3 +112,84 @@ func mspecsC09(tier string) []*mc.MSpec {
 		},
 	}}
 }
+
+// versionFirst: the handshake is the first action of a Mode M connection.
+func versionFirst(c *mc.Conn, ci int) []mc.MAct {
+	if len(c.Client.Done) == 0 && pendingOn(c) == 0 {
+		return []mc.MAct{sendAct(ci, "version", `{"protocol":"1.2.3"}`)}
+	}
+	return nil
+}
+
+// svcAct is a service-side action.
+func svcAct(name string, f func(w *mc.World)) mc.MAct { return mc.MAct{Name: "svc:" + name, Do: f} }
+
+// mspecsC02: the reference collector. One connection; a chain a -> b -> c, a
+// collection l -> c, and a reference b -> a that closes a cycle; the client
+// subscribes and unsubscribes a, b and l in any order while the service
+// rewires the references with change/add/remove events, and every get answer
+// is an action of its own (so a reference may still be loading when the next
+// event or request arrives). The drain probe of every state runs the
+// end-of-run oracles (no dangling reference, nothing kept that is not
+// reachable, client copy == service state for confirmed subscriptions).
+func mspecsC02(tier string) []*mc.MSpec {
+	vals := []string{ref("test.c"), ref("test.a"), `0`}
+	sc := &mc.Scenario{
+		Name: "M/gc", NoEvict: true,
+		Init: func(w *mc.World) {
+			w.Svc.Model("test.a", "r", ref("test.b"))
+			w.Svc.Model("test.b", "r", ref("test.c"))
+			w.Svc.Model("test.c", "n", `0`)
+			w.Svc.Collection("test.l", ref("test.c"))
+			w.Data["b.r"] = "0"
+			w.Data["a.r"] = "1"
+		},
+		Conns:    []mc.ConnSpec{{}},
+		Monitors: allMons(),
+	}
+	return []*mc.MSpec{{
+		Name: "gc", Scenario: sc,
+		MaxDepth: map[string]int{"quick": 8, "thorough": 12},
+		Alphabet: func(w *mc.World) []mc.MAct {
+			c := w.Conns[0]
+			if v := versionFirst(c, 0); v != nil {
+				return v
+			}
+			var out []mc.MAct
+			if pendingOn(c) < 1 {
+				for _, rid := range []string{"test.a", "test.b", "test.l"} {
+					if c.Client.Direct[rid] < 1 {
+						out = append(out, sendAct(0, "subscribe."+rid, ""))
+					} else {
+						out = append(out, sendAct(0, "unsubscribe."+rid, ""))
+					}
+				}
+			}
+			// a.r: reference to b <-> plain value
+			if w.Data["a.r"] == "1" {
+				out = append(out, svcAct("a.r=0", func(w *mc.World) { w.Data["a.r"] = "0"; w.Svc.Change("test.a", "r", `0`) }))
+			} else {
+				out = append(out, svcAct("a.r=b", func(w *mc.World) { w.Data["a.r"] = "1"; w.Svc.Change("test.a", "r", ref("test.b")) }))
+			}
+			// b.r: c, a (cycle) or plain
+			cur := 0
+			fmt.Sscan(w.Data["b.r"].(string), &cur)
+			for i, v := range vals {
+				if i == cur {
+					continue
+				}
+				i, v := i, v
+				out = append(out, svcAct(fmt.Sprintf("b.r=%d", i), func(w *mc.World) { w.Data["b.r"] = fmt.Sprint(i); w.Svc.Change("test.b", "r", v) }))
+			}
+			// l: add / remove a reference to c
+			n := len(w.Svc.Res["test.l"].C)
+			if n < 2 {
+				out = append(out, svcAct("l.add", func(w *mc.World) { w.Svc.Add("test.l", 0, ref("test.c")) }))
+			}
+			if n > 0 {
+				out = append(out, svcAct("l.remove", func(w *mc.World) { w.Svc.Remove("test.l", 0) }))
+			}
+			return out
+		},
+	}}
+}
